@@ -13,6 +13,9 @@ from typing import Any, Dict, List, Optional, Tuple
 
 
 # ------------------------------------------------------------------------------------------------ generic helpers
+import copy as _copy
+
+
 def f32(x: float) -> float:
     return struct.unpack('<f', struct.pack('<f', x))[0]
 
@@ -146,6 +149,8 @@ def gen_cmdseq(rng) -> Dict[str, list]:
                 use_proc_win=rng.random() < 0.5,
                 no_wait=rng.random() < 0.3,
             ))
+            if rng.random() < 0.2:
+                cmds.append(_copy.copy(cmds[-1]))  # the same command twice in a row
         seqs[name] = cmds
     return seqs
 
@@ -226,6 +231,8 @@ def _samples(rng, mode: str, curve_types: bool, n_max: int = 4) -> list:
         # In text the sample value is not quantised; in binary it is one byte.
         val = rng.choice((rng.uniform(-1, 2), rng.random(), 0.0, 1.0)) if mode == 'text' else _q(rng, mode)
         out.append(choreo.ExpressionSample(_time(rng, mode), val, ct))
+        if rng.random() < 0.2:
+            out.append(_copy.deepcopy(out[-1]))  # a record equal to its predecessor (held value)
     return out
 
 
@@ -275,6 +282,8 @@ def _tags(rng, mode: str, cls, strs, timing: bool = False, absolute: bool = Fals
             out.append(cls(strs(), abs_value(rng, mode, abs_tags_wide())))
         else:
             out.append(cls(strs(), _q(rng, mode)))
+        if rng.random() < 0.15:
+            out.append(_copy.deepcopy(out[-1]))
     return out
 
 
@@ -348,7 +357,10 @@ def gen_scene(rng, mode: str, flex: Optional[bool] = None):
         return rand_str(rng, 8, escapes=hostile, unicode=uni, struct_chars=hostile / 2, forbid='\x00')
 
     def events(n_choices) -> list:
-        return [gen_event(rng, mode, strs, flex) for _ in range(rng.choice(n_choices))]
+        evs = [gen_event(rng, mode, strs, flex) for _ in range(rng.choice(n_choices))]
+        if evs and rng.random() < 0.15:
+            evs.insert(rng.randrange(len(evs) + 1), _copy.deepcopy(rng.choice(evs)))  # an exact copy of a sibling event
+        return evs
 
     actors = []
     for _ in range(rng.choice((0, 1, 1, 2))):
@@ -438,6 +450,8 @@ def gen_sounds(rng) -> list:
         seen.add(name.casefold())
         chars = ''.join(rng.sample(list(ss.CHAR_TO_FLAG), rng.choice((0, 0, 1, 3))))
         waves = [chars + plain(14) + rng.choice(('.wav', '.mp3', '')) for _ in range(rng.choice((0, 1, 1, 1, 2, 4)))]
+        if waves and rng.random() < 0.2:
+            waves.insert(rng.randrange(len(waves) + 1), rng.choice(waves))  # the same wave listed twice (weights it)
         out.append(ss.Sound(
             name, waves,
             volume=interval([ss.VOL_NORM], 0, 2) if rng.random() < 0.7 else (1.0, 1.0),
